@@ -44,7 +44,16 @@ TrReset ==
     /\ ran' = [i \in Ids |-> {}] /\ ckAll' = [i \in Ids |-> None] /\ bad' = {}
     /\ UNCHANGED <<implvars, wof>>
 
-OpOf(r) == IF r.t = "S" THEN SchedOp(r.id, [k |-> r.k, e |-> r.e, o |-> r.o], r.last) ELSE RelOp(r.id)
+(* A Schedule made through the coordinator (TaskCreated / TaskUpdated) carries the task's LatestCompleted (lc)  *)
+(* and LatestScheduled (ls, -1 = unset): NewSchedulableTask takes lc unless ls is set and not older, and        *)
+(* NewSchedule aligns it to the interval for "every" tasks.  Release through the coordinator = TaskDeleted or   *)
+(* TaskUpdated active -> inactive.                                                                              *)
+EffLast(r) ==
+    IF "via" \in DOMAIN r
+    THEN LET l0 == IF r.ls = -1 \/ r.ls < r.lc THEN r.lc ELSE r.ls
+         IN  IF r.k = "every" THEN (l0 \div r.e) * r.e ELSE l0
+    ELSE r.last
+OpOf(r) == IF r.t = "S" THEN SchedOp(r.id, [k |-> r.k, e |-> r.e, o |-> r.o], EffLast(r)) ELSE RelOp(r.id)
 
 TrCall ==
     /\ IsEv("Call") /\ pend = NoOp
